@@ -192,6 +192,7 @@ pub fn run_arm_sem(opc: u8, dst: u8) {
         stack: SRegion { base: kani::any(), len: kani::any() },
         allowed: None,
     };
+    if crate::WITNESS_MODE { kani::assume(small_world_regions((lay.mem.base, lay.mem.len), (lay.mbuff.base, lay.mbuff.len), (lay.stack.base, lay.stack.len))); }
     let pre = SState { reg, pc, depth: 0, frames: default_frames() };
     let oracle = SOracle { load_data: st.load_data, helper_present: false, helper_ret: 0, entry_usage: None, next_imm: next.imm };
     let want = spec_step(&pre, si, &lay, &oracle);
